@@ -69,4 +69,134 @@ theorem rstep (s : RSys) (i : AxiM × AxlS) (hinv : RInv s) (hok : singleOutstan
         simp [RInv, RGood, rsys, next, toMaster, toSlave, chooseR, chooseW, bufSinkReady, beatReady, beatValid, beat,
           b2bIn, b2bOut, b2bNext_count, b2bFirst, b2bLast, respOkay, hl, hmod] at hac p1 p2 hra har ⊢ <;> omega
 
+/-! ### read and write bursts together -/
+
+def BInv (s : BSys) : Prop :=
+  (s.br.st = .idle → s.br.bufValid = false ∧ s.br.b2b.count = 0) ∧
+  (s.br.st = .read →
+    s.br.bufReq.len < 256 ∧ s.br.bufValid = true ∧ s.br.b2b.count ≤ s.br.bufReq.len ∧
+    s.arCnt = s.br.b2b.count + (if s.br.cmdDone then 1 else 0) ∧
+    (s.br.cmdDone = true → s.br.b2b.count = s.br.bufReq.len) ∧
+    s.rCnt ≤ s.arCnt ∧ s.arCnt ≤ s.rCnt + 1) ∧
+  (s.br.st = .write →
+    s.br.bufReq.len < 256 ∧ s.br.bufValid = true ∧ s.br.b2b.count ≤ s.br.bufReq.len ∧
+    s.awCnt = s.br.b2b.count + (if s.br.cmdDone then 1 else 0) ∧
+    (s.br.cmdDone = true → s.br.b2b.count = s.br.bufReq.len) ∧
+    s.wCnt ≤ s.awCnt ∧ s.wCnt ≤ s.br.bufReq.len) ∧
+  (s.br.st = .writeResp →
+    s.br.bufReq.len < 256 ∧ s.br.bufValid = true ∧ s.br.b2b.count = s.br.bufReq.len ∧
+    s.awCnt = s.br.bufReq.len + 1 ∧ s.wCnt = s.br.bufReq.len + 1)
+
+/-- Read beats: `last` exactly on beat `len + 1`, id of the burst.  Write bursts: in WRITE never more W beats than
+    AWs and never more AWs than `len + 1`; B (WRITE-RESP) only after exactly `len + 1` AWs and `len + 1` W beats,
+    with the id of the burst. -/
+def BGood (s : BSys) (i : AxiM × AxlS) : Prop :=
+  (s.br.st = .read → (toMaster aw s.br i.1 i.2).rvalid = true →
+    ((toMaster aw s.br i.1 i.2).rlast = true ↔ s.rCnt = s.br.bufReq.len) ∧
+    s.rCnt ≤ s.br.bufReq.len ∧ (toMaster aw s.br i.1 i.2).rid = s.br.bufReq.id) ∧
+  (s.br.st = .write → s.wCnt ≤ s.awCnt ∧ s.awCnt ≤ s.br.bufReq.len + 1 ∧ (toMaster aw s.br i.1 i.2).bvalid = false) ∧
+  ((toMaster aw s.br i.1 i.2).bvalid = true →
+    s.awCnt = s.br.bufReq.len + 1 ∧ s.wCnt = s.br.bufReq.len + 1 ∧ (toMaster aw s.br i.1 i.2).bid = s.br.bufReq.id)
+
+set_option maxHeartbeats 1600000 in
+theorem bstep_idle (s : BSys) (i : AxiM × AxlS) (hinv : BInv s) (hok : wellBehaved s i) (hst : s.br.st = .idle) :
+    BGood aw s i ∧ BInv ((bsys aw).next s i) := by
+  obtain ⟨⟨st, cmdDone, last, bufValid, bufReq, ⟨count, offset⟩⟩, arCnt, rCnt, awCnt, wCnt⟩ := s
+  obtain ⟨⟨awvalid, awr, wvalid, wdata, wstrb, wlast, bready, arvalid, arr, rready⟩,
+    ⟨oawready, owready, bvalid, bresp, oarready, rvalid, rresp, rdata⟩⟩ := i
+  simp only at hst
+  subst hst
+  obtain ⟨h1, h2, h3, h4⟩ := hinv
+  obtain ⟨p1, p2, p3, p4, p5, p6⟩ := hok
+  simp only at h1 h2 h3 h4 p1 p2 p3 p4 p5 p6
+  obtain ⟨hb, hcnt⟩ := h1 trivial
+  subst hb hcnt
+  cases arvalid <;> cases awvalid <;> cases last <;>
+    simp [BInv, BGood, bsys, next, toMaster, toSlave, chooseR, chooseW, bufSinkReady, beatReady, b2bIn,
+      b2bNext_count, b2bFirst, p5, p6, AxiS.idle]
+
+set_option maxHeartbeats 1600000 in
+theorem bstep_read (s : BSys) (i : AxiM × AxlS) (hinv : BInv s) (hok : wellBehaved s i) (hst : s.br.st = .read) :
+    BGood aw s i ∧ BInv ((bsys aw).next s i) := by
+  obtain ⟨⟨st, cmdDone, last, bufValid, bufReq, ⟨count, offset⟩⟩, arCnt, rCnt, awCnt, wCnt⟩ := s
+  obtain ⟨⟨awvalid, awr, wvalid, wdata, wstrb, wlast, bready, arvalid, arr, rready⟩,
+    ⟨oawready, owready, bvalid, bresp, oarready, rvalid, rresp, rdata⟩⟩ := i
+  simp only at hst
+  subst hst
+  obtain ⟨h1, h2, h3, h4⟩ := hinv
+  obtain ⟨p1, p2, p3, p4, p5, p6⟩ := hok
+  simp only at h1 h2 h3 h4 p1 p2 p3 p4 p5 p6
+  obtain ⟨hlen, hb, hc, hac, hcd, hra, har⟩ := h2 trivial
+  subst hb
+  by_cases hl : count = bufReq.len
+  · subst hl
+    cases cmdDone <;> cases oarready <;> cases rvalid <;> cases rready <;>
+      simp [BInv, BGood, bsys, next, toMaster, toSlave, chooseR, chooseW, bufSinkReady, beatReady, beatValid, beat,
+        b2bIn, b2bOut, b2bNext_count, b2bFirst, b2bLast, respOkay, AxiS.idle, AxlM.idle] at hac p1 p2 hra har ⊢ <;> omega
+  · have hlt : count + 1 ≤ bufReq.len := by omega
+    have hmod : (count + 1) % 256 = count + 1 := Nat.mod_eq_of_lt (by omega)
+    have hcd' : cmdDone = false := by
+      cases cmdDone
+      · rfl
+      · exact absurd (hcd rfl) hl
+    subst hcd'
+    cases oarready <;> cases rvalid <;> cases rready <;>
+      simp [BInv, BGood, bsys, next, toMaster, toSlave, chooseR, chooseW, bufSinkReady, beatReady, beatValid, beat,
+        b2bIn, b2bOut, b2bNext_count, b2bFirst, b2bLast, respOkay, AxiS.idle, AxlM.idle, hl, hmod] at hac p1 p2 hra har ⊢ <;> omega
+
+set_option maxHeartbeats 1600000 in
+theorem bstep_write (s : BSys) (i : AxiM × AxlS) (hinv : BInv s) (hok : wellBehaved s i) (hst : s.br.st = .write) :
+    BGood aw s i ∧ BInv ((bsys aw).next s i) := by
+  obtain ⟨⟨st, cmdDone, last, bufValid, bufReq, ⟨count, offset⟩⟩, arCnt, rCnt, awCnt, wCnt⟩ := s
+  obtain ⟨⟨awvalid, awr, wvalid, wdata, wstrb, wlast, bready, arvalid, arr, rready⟩,
+    ⟨oawready, owready, bvalid, bresp, oarready, rvalid, rresp, rdata⟩⟩ := i
+  simp only at hst
+  subst hst
+  obtain ⟨h1, h2, h3, h4⟩ := hinv
+  obtain ⟨p1, p2, p3, p4, p5, p6⟩ := hok
+  simp only at h1 h2 h3 h4 p1 p2 p3 p4 p5 p6
+  obtain ⟨hlen, hb, hc, hac, hcd, hwa, hwl⟩ := h3 trivial
+  subst hb
+  have p4' := p4 trivial
+  by_cases hl : count = bufReq.len
+  · subst hl
+    cases cmdDone <;> cases oawready <;> cases wvalid <;> cases owready <;> cases wlast <;>
+      simp [BInv, BGood, bsys, next, toMaster, toSlave, chooseR, chooseW, bufSinkReady, beatReady, beatValid, beat,
+        b2bIn, b2bOut, b2bNext_count, b2bFirst, b2bLast, respOkay, AxiS.idle, AxlM.idle] at hac p3 p4' hwa hwl ⊢ <;> omega
+  · have hlt : count + 1 ≤ bufReq.len := by omega
+    have hmod : (count + 1) % 256 = count + 1 := Nat.mod_eq_of_lt (by omega)
+    have hcd' : cmdDone = false := by
+      cases cmdDone
+      · rfl
+      · exact absurd (hcd rfl) hl
+    subst hcd'
+    cases oawready <;> cases wvalid <;> cases owready <;> cases wlast <;>
+      simp [BInv, BGood, bsys, next, toMaster, toSlave, chooseR, chooseW, bufSinkReady, beatReady, beatValid, beat,
+        b2bIn, b2bOut, b2bNext_count, b2bFirst, b2bLast, respOkay, AxiS.idle, AxlM.idle, hl, hmod] at hac p3 p4' hwa hwl ⊢ <;> omega
+
+set_option maxHeartbeats 1600000 in
+theorem bstep_wresp (s : BSys) (i : AxiM × AxlS) (hinv : BInv s) (hok : wellBehaved s i) (hst : s.br.st = .writeResp) :
+    BGood aw s i ∧ BInv ((bsys aw).next s i) := by
+  obtain ⟨⟨st, cmdDone, last, bufValid, bufReq, ⟨count, offset⟩⟩, arCnt, rCnt, awCnt, wCnt⟩ := s
+  obtain ⟨⟨awvalid, awr, wvalid, wdata, wstrb, wlast, bready, arvalid, arr, rready⟩,
+    ⟨oawready, owready, bvalid, bresp, oarready, rvalid, rresp, rdata⟩⟩ := i
+  simp only at hst
+  subst hst
+  obtain ⟨h1, h2, h3, h4⟩ := hinv
+  obtain ⟨p1, p2, p3, p4, p5, p6⟩ := hok
+  simp only at h1 h2 h3 h4 p1 p2 p3 p4 p5 p6
+  obtain ⟨hlen, hb, hc, haw, hw⟩ := h4 trivial
+  subst hb hc
+  cases bready <;>
+    simp [BInv, BGood, bsys, next, toMaster, toSlave, chooseR, chooseW, bufSinkReady, beatReady, beatValid, beat,
+        b2bIn, b2bOut, b2bNext_count, b2bFirst, b2bLast, respOkay, AxiS.idle, AxlM.idle] at haw hw ⊢ <;> omega
+
+theorem bstep (s : BSys) (i : AxiM × AxlS) (hinv : BInv s) (hok : wellBehaved s i) :
+    BGood aw s i ∧ BInv ((bsys aw).next s i) := by
+  rcases hst : s.br.st with _ | _ | _ | _
+  · exact bstep_idle aw s i hinv hok hst
+  · exact bstep_read aw s i hinv hok hst
+  · exact bstep_write aw s i hinv hok hst
+  · exact bstep_wresp aw s i hinv hok hst
+
 end Litex.Bridge.Axi2Axl
